@@ -85,7 +85,8 @@ Proof. exact ordinal_last_word. Qed.
 Print Assumptions C15_ordinal_last_word.
 (* (6b) The loop of dirR (for _, trip := range cardinalTriples, three digits of the decimal text per round, the pop of
    the scale word of an all-zero group, the ordinal tables in the first round only) writes, for EVERY integer, the
-   text of the definition wherever english_ok holds: |z| < 10^66 (finding C15-english-beyond-vigintillion) and, for ordinals, the number is 0 or ends in 01..19 or in a digit that is not 0
+   text of the definition (or, from 10^66 on, signals an error where the definition has no text) wherever english_ok
+   holds: for ordinals below 10^66, the number is 0 or ends in 01..19 or in a digit that is not 0
    (C15-ordinal-of-round-number). By induction over the groups of three digits of the decimal text; the words of one
    round are compared with the definition for all 22 x 1000 (scale, group value) pairs by kernel computation — the
    domain of a group is finite. No bound on z. *)
@@ -94,17 +95,19 @@ Theorem C15_english_loop : forall ordinal z, english_ok ordinal (Z.abs_N z) = tr
 Proof. exact english_loop. Qed.
 Print Assumptions C15_english_loop.
 (* (6c) ... and EXACTLY there: for every integer outside english_ok the loop writes a text that is not the defined one
-   (a cardinal where the ordinal is wanted, or a text where the definition has none). So the clauses of english_ok are each necessary: they are the remaining known
-   findings about the English writer (the quantillion and empty-word clauses went with repo_fixes/C15-1 and C15-2), and there is no other. *)
+   (a cardinal where the ordinal is wanted). So the clauses of english_ok are each necessary: they are the remaining known
+   findings about the English writer (the quantillion, empty-word and 10^66 clauses went with repo_fixes/C15-1, C15-2 and C15-3), and there is no other. *)
 Theorem C15_english_loop_exact : forall ordinal z,
   go_english src_tables ordinal (dec_text z) = std_english ordinal z <-> english_ok ordinal (Z.abs_N z) = true.
 Proof. exact english_loop_exact. Qed.
 Print Assumptions C15_english_loop_exact.
-(* (6d) What the loop writes for every integer but 0 and EVERY table (no guard): "negative" if z < 0, then the words of
+(* (6d) What the loop writes for every integer but 0 and EVERY table (no guard): nothing (an error) when the decimal text
+   has more than three digits per scale word; otherwise "negative" if z < 0, then the words of
    the groups of three digits of |z| from the most significant one, each group as one round of the loop writes it (GL);
    and the fact about decimal texts it rests on: the text of n >= 1000 is the text of n / 1000 followed by three digits. *)
 Theorem C15_english_loop_words : forall T colon z, z <> 0%Z ->
   go_english T colon (dec_text z) =
+  if Nat.ltb (3 * List.length (t_triples T)) (List.length (digit_text 10 (Z.abs_N z))) then None else
   Some (join [sp] ((if (z <? 0)%Z then [tx "negative"] else []) ++
                    rev (GL T (t_triples T) (if colon then t_ordone T else t_one T) (if colon then t_ordteen T else t_teen T)
                            (triples_of (Z.abs_N z))))).
